@@ -106,6 +106,7 @@ type Exec struct {
 	closureIDs          map[*ClosureRef]int64
 	concreteSolverCalls int
 	GlobalFacts         []*Term
+	assignSrcType       types.Type
 	lockRules           []lockRule
 	guardRules          []guardRule
 }
@@ -454,6 +455,21 @@ func (l varLV) Store(x *Exec, st *State, v Value) {
 	}
 	st.vars[l.obj] = v
 }
+
+// globalLV is a package-level variable: its value in a path is the symbolic
+// global until the path assigns to it.
+type globalLV struct {
+	obj *types.Var
+	fr  *Frame
+}
+
+func (l globalLV) Load(x *Exec, st *State) Value {
+	if v, ok := st.vars[l.obj]; ok {
+		return v
+	}
+	return x.globalValue(l.fr, st, l.obj)
+}
+func (l globalLV) Store(x *Exec, st *State, v Value) { st.vars[l.obj] = v }
 
 type fieldLV struct {
 	base LVal
@@ -940,6 +956,10 @@ func (x *Exec) expr(fr *Frame, e ast.Expr, st *State, k func(*State, Value)) {
 		x.expr(fr, e.X, st, func(st *State, v Value) {
 			t := x.typeOf(fr, e)
 			if o, ok := v.(OpaqueV); ok && o.Dyn != nil {
+				if ar, isAtomic := o.Dyn.(AtomicRefV); isAtomic {
+					k(st, x.atomicLoad(st, ar.Addr, t))
+					return
+				}
 				k(st, o.Dyn)
 				return
 			}
@@ -998,7 +1018,7 @@ func (x *Exec) identExpr(fr *Frame, e *ast.Ident, st *State, k func(*State, Valu
 		k(st, x.zeroValue(x.typeOf(fr, e)))
 	case *types.Var:
 		if o.Parent() != nil && o.Pkg() != nil && o.Parent() == o.Pkg().Scope() {
-			k(st, x.globalValue(fr, st, o))
+			k(st, globalLV{o, fr}.Load(x, st))
 			return
 		}
 		k(st, varLV{o}.Load(x, st))
@@ -1562,11 +1582,11 @@ func (x *Exec) convertAssign(st *State, v Value, t types.Type) Value {
 		case PtrV:
 			return OpaqueV{T: vv.Addr, Type: t, Dyn: vv}
 		case IntV:
-			return OpaqueV{T: App("box_int", SInt, vv.T), Type: t, Dyn: vv}
+			return OpaqueV{T: App("box_int", SInt, vv.T), Type: t, Dyn: vv, DynType: x.assignSrcType}
 		default:
 			id := Var(x.fresh("iface"), SInt)
 			st.assumeRaw(Gt(id, IntLit(0)))
-			return OpaqueV{T: id, Type: t, Dyn: v}
+			return OpaqueV{T: id, Type: t, Dyn: v, DynType: x.assignSrcType}
 		}
 	}
 	if o, ok := v.(OpaqueV); ok {
@@ -1601,7 +1621,8 @@ func (x *Exec) lvalue(fr *Frame, e ast.Expr, st *State, k func(*State, LVal)) {
 			panic(x.unsupported("assignment to non-variable"))
 		}
 		if v.Parent() != nil && v.Pkg() != nil && v.Parent() == v.Pkg().Scope() {
-			panic(x.unsupported("assignment to package-level variable " + v.Name() + " at " + x.pos(e)))
+			k(st, globalLV{v, fr})
+			return
 		}
 		k(st, varLV{v})
 	case *ast.SelectorExpr:
